@@ -769,6 +769,8 @@ def check_C13(ctx):
     os_ = hv(ctx, "replay-ontmachine", prop="C13", **{"in": oo})
     ctx.traces += os_.get("cases", 0)
     ctx.extra["ontology_object_histories"] = os_.get("cases", 0)
+    # impl -> spec: HpoSet operations on random subsets (up to 36 members) of recorded ontologies (6-16 terms; 52-70 in the thorough tier)
+    trace_core(ctx, "C13", 36 if ctx.quick else 300, large_every=(0 if ctx.quick else 15))
     ctx.assumptions += ["a replacement id that does not resolve in the ontology cannot be iterated (documented panic); it is compared through contains() only and excluded from the object histories"]
     return finish(ctx)
 
@@ -804,6 +806,8 @@ def check_C19(ctx):
         outs.append(tlc(ctx, "mc/MC_Cats5.cfg", "mc/MC_Cats.tla", workers=14, timeout=1800)["out"])
     s = hv(ctx, "replay-cats", prop="C19", **{"in": concat(ctx, outs, "c19-lines.txt")})
     ctx.traces += s.get("cases", 0)
+    # impl -> spec: the classification of every term of recorded random ontologies built with the defaults (TraceCore focus C19)
+    trace_core(ctx, "C19", 36 if ctx.quick else 300, large_every=0)
     return finish(ctx)
 
 
